@@ -227,6 +227,17 @@ def gen_case(S, tier, prop, force=None):
             "batch": batch, "checks": [prop]}
     if mixed:
         case["mixed"] = True
+    if theta and not force.get("single_op") and rng.random() < 0.12:
+        # history on one object: simulate, re-bind the parameters, simulate again
+        th2 = [round(v * rng.uniform(0.6, 1.4), 3) for v in theta]
+        est2 = estimate_events(ref, th2, x0, t0, T)
+        if est2 <= 2.5 * max(est, 50.0):
+            first = dict(ops[0])
+            second = dict(ops[0])
+            second["seed"] = rng.randrange(2 ** 32)
+            case["ops"] = [first, {"op": "rebind", "theta": th2, "how": rng.choice(["list", "dict", "partial"])}, second] + ops[1:]
+            case["est_events"] = float(round(max(est, est2), 3))
+            case["est_steps"] = float(round(max(est_steps, est2), 3))
     return case
 
 
@@ -927,4 +938,29 @@ def run_direct(sess, op, out, stats, log):
                 return
 
 
-_OPS = {"paths": run_paths, "grid": run_grid, "direct": run_direct}
+def run_rebind(sess, op, out, stats, log):
+    """The owner re-binds the parameter values of the model that is being simulated (a history on one object): the
+    next paths must be walks of the model with the NEW values."""
+    names = sess.ref.param_names
+    th = [float(v) for v in op["theta"]]
+    how = op.get("how", "list")
+    try:
+        if how == "dict":
+            sess.ode.parameters = dict(zip(names, th))
+        elif how == "partial":
+            keep = names[::2]
+            sess.ode.parameters = {nm: v for nm, v in zip(names, th) if nm in keep}
+            th = [v if nm in keep else old for nm, v, old in zip(names, th, sess.theta)]
+        else:
+            sess.ode.parameters = list(th)
+    except core.RunTimeout:
+        raise
+    except Exception as e:
+        out.append(core.crash_failure("C04", e, -1, "re-binding parameters between two simulations"))
+        return
+    sess.theta = th
+    stats["rebinds"] = stats.get("rebinds", 0) + 1
+    log.append(["rebind", how])
+
+
+_OPS = {"paths": run_paths, "grid": run_grid, "direct": run_direct, "rebind": run_rebind}
